@@ -9,6 +9,8 @@ From WG Require Import BV.RefSel.
 From WG Require Import BV.Bits.
 From WG Require Import Par.Splice.
 From WG Require Import Flags.Props.
+From WG Require Import Algo.PageRankQ.
+From WG Require Import Algo.PageRankStatements.
 
 Extraction Language OCaml.
 
@@ -56,4 +58,22 @@ Extraction "model.ml"
   representable
   java_from_props
   version
+  pr_solve
+  residual_zero
+  certified
+  pr_iterate
+  sweep
+  l1dist
+  dangling_rank
+  vecf
+  predf
+  Qred
+  Qle_bool
+  Qeq_bool
+  Qabs.Qabs
+  Qplus
+  Qminus
+  Qmult
+  Qdiv
+  sumn
 .
